@@ -9,6 +9,13 @@ hash function whose digests are hexadecimal (`HexDigest`).
 -/
 namespace IV.CleanState
 
+/-- recognisers for the examples: every line "contains" the given addresses / host names -/
+def witnessEnv0 (found : List Str) : Env :=
+  ⟨fun _ => found, fun _ => [], fun _ => [], fun _ => false, fun _ => [], fun _ => false, fun _ => [], id, {}⟩
+def hostEnv0 : Env :=
+  ⟨fun _ => [], fun _ => ["a.d".toList, "b.d".toList], fun _ => [], fun _ => false, fun _ => [], fun _ => false,
+   fun _ => "0123456789abcdef".toList, id, {}⟩
+
 /-- state reached from a fresh `Cleaner` by a history of calls -/
 def after (E : Env) (cfg : Cfg) (h : List Call) : St := (runHistory E cfg (initSt E cfg) h).1
 
@@ -22,20 +29,6 @@ theorem db_grows (E : Env) (cfg : Cfg) (hE : HexDigest E) (h1 h2 : List Call) :
   unfold after
   rw [runHistory_append]
   exact (runHistory_pres E cfg hE h2 _ (history_invariant E cfg hE h1)).2
-
-theorem dictGet_of_mem {α β : Type} [BEq α] [LawfulBEq α] (db : List (α × β)) (k : α) (v : β)
-    (hn : (db.map Prod.fst).Nodup) (h : (k, v) ∈ db) : dictGet db k = some v := by
-  induction db with
-  | nil => cases h
-  | cons p rest ih =>
-    obtain ⟨k', v'⟩ := p
-    simp only [List.map_cons, List.nodup_cons] at hn
-    rcases List.mem_cons.mp h with e | hm
-    · cases e; simp [dictGet]
-    · have hne : (k' == k) = false := by
-        apply beq_false_of_ne; intro e; subst e
-        exact hn.1 (List.mem_map.mpr ⟨_, hm, rfl⟩)
-      simp [dictGet, hne, ih hn.2 hm]
 
 /-- **db_functional** — an original once mapped keeps its substitute forever: after any continuation of the
 history the entry is still there AND the look-up the code performs (`_ip2db` / `_hn2db` scan the values,
@@ -65,30 +58,6 @@ example : (after ⟨fun _ => ["1.2.3.4".toList], fun _ => [], fun _ => [], fun _
     fun _ => false, fun _ => [], id, {}⟩ ⟨"h.d".toList, true, false, false, false, [], []⟩
     [⟨[], false, none, ["x".toList]⟩]).ipDb = [(startIp, 16909060)] := by decide
 
-theorem nodup_pair {α β : Type} (db : List (α × β)) (hk : (db.map Prod.fst).Nodup) (p q : α × β)
-    (hp : p ∈ db) (hq : q ∈ db) (h : p.1 = q.1) : p = q := by
-  induction db with
-  | nil => cases hp
-  | cons x rest ih =>
-    simp only [List.map_cons, List.nodup_cons] at hk
-    rcases List.mem_cons.mp hp with e1 | m1 <;> rcases List.mem_cons.mp hq with e2 | m2
-    · rw [e1, e2]
-    · exfalso; apply hk.1; rw [← e1, h]; exact List.mem_map.mpr ⟨_, m2, rfl⟩
-    · exfalso; apply hk.1; rw [← e2, ← h]; exact List.mem_map.mpr ⟨_, m1, rfl⟩
-    · exact ih hk.2 m1 m2
-
-theorem nodup_pair_snd {α β : Type} (db : List (α × β)) (hk : (db.map Prod.snd).Nodup) (p q : α × β)
-    (hp : p ∈ db) (hq : q ∈ db) (h : p.2 = q.2) : p = q := by
-  induction db with
-  | nil => cases hp
-  | cons x rest ih =>
-    simp only [List.map_cons, List.nodup_cons] at hk
-    rcases List.mem_cons.mp hp with e1 | m1 <;> rcases List.mem_cons.mp hq with e2 | m2
-    · rw [e1, e2]
-    · exfalso; apply hk.1; rw [← e1, h]; exact List.mem_map.mpr ⟨_, m2, rfl⟩
-    · exfalso; apply hk.1; rw [← e2, ← h]; exact List.mem_map.mpr ⟨_, m1, rfl⟩
-    · exact ih hk.2 m1 m2
-
 /-- the issued IPv4 substitutes are EXACTLY `start, start+1, …` in order of issue (`max + 1` is the next
 unused address), so they stay inside the address space as long as fewer than `2^32 - start`
 (= 4 112 325 119) distinct originals were met — beyond that `_int2ip` raises in the real code -/
@@ -115,19 +84,6 @@ theorem db_injective_ip (E : Env) (cfg : Cfg) (hE : HexDigest E) (h : List Call)
   · intro hne e; exact hne (by rw [nodup_pair _ hk p q hp hq e])
   · intro hne e; exact hne (by rw [nodup_pair_snd _ inv.ipVals p q hp hq e])
 
-theorem hostKeys_nodup (E : Env) (cfg : Cfg) (hE : HexDigest E) (cnt : Nat) : (hostKeys E cfg cnt).Nodup := by
-  unfold hostKeys
-  rw [List.nodup_append]
-  refine ⟨?_, ?_, ?_⟩
-  · rcases initKeys_cases E cfg with ⟨h, _⟩ | ⟨h, _⟩ <;> rw [h] <;> simp
-  · exact List.Pairwise.map _ (fun a b hab e => hab (counterName_inj e)) List.nodup_range'
-  · intro a ha b hb e
-    subst e
-    obtain ⟨n, _, e⟩ := List.mem_map.mp hb
-    rcases initKeys_cases E cfg with ⟨h, _⟩ | ⟨h, _⟩ <;> rw [h] at ha <;> simp at ha
-    rw [ha] at e
-    exact sysSub_ne_counter E cfg hE _ _ e.symm
-
 /-- **db_injective_host** — after every history: different original host names have different substitutes
 and vice versa.  Counter names `host<N>.example.com` are fresh because `N` only grows and decimal rendering
 is injective; none can equal the system's hashed name because that starts with a hexadecimal digit. -/
@@ -139,6 +95,33 @@ theorem db_injective_host (E : Env) (cfg : Cfg) (hE : HexDigest E) (h : List Cal
   constructor
   · intro hne e; exact hne (by rw [nodup_pair _ hk p q hp hq e])
   · intro hne e; exact hne (by rw [nodup_pair_snd _ inv.hnVals p q hp hq e])
+
+/-- two originals on one line, met again in a second call: two entries, consecutive substitutes, no third entry -/
+example : (after (witnessEnv0 ["1.2.3.4".toList, "9.9.9.9".toList]) ⟨"h.d".toList, true, false, false, false, [], []⟩
+    [⟨[], false, none, ["x".toList]⟩, ⟨[], false, none, ["y".toList]⟩]).ipDb =
+    [(startIp, 16909060), (startIp + 1, 151587081)] := by decide
+
+/-- the hypothesis on the hash is satisfiable, and host names get `host2`, `host3` after the system's entry -/
+example : HexDigest hostEnv0 ∧
+    (after hostEnv0 ⟨"h.d".toList, true, false, true, false, [], []⟩ [⟨[], false, none, ["x".toList, "y".toList]⟩]).hnDb =
+    [("0123456789ab.example.com".toList, "h.d".toList), ("host2.example.com".toList, "a.d".toList),
+     ("host3.example.com".toList, "b.d".toList)] := by
+  refine ⟨?_, by decide⟩
+  intro s c hc
+  simp only [hostEnv0] at hc
+  revert c
+  decide
+
+/-- the same for the TEXT that appears in outputs and reports: as long as the address space is not exhausted
+(fewer than `2^32 - start` originals), different originals are shown as different dotted quads
+(`inet_ntoa` is injective on 32-bit values: `ip2int_int2ip`) -/
+theorem db_injective_ip_text (E : Env) (cfg : Cfg) (hE : HexDigest E) (h : List Call)
+    (hb : (after E cfg h).ipDb.length ≤ 2 ^ 32 - startIp) (p q : Nat × Nat)
+    (hp : p ∈ (after E cfg h).ipDb) (hq : q ∈ (after E cfg h).ipDb) (hne : p.2 ≠ q.2) :
+    int2ip p.1 ≠ int2ip q.1 := by
+  have hr := (ip_keys_range E cfg hE h).2 hb
+  intro e
+  exact (db_injective_ip E cfg hE h p q hp hq).1 hne (int2ip_inj _ _ (hr p hp).2 (hr q hq).2 e)
 
 /-- the shape of the host substitutes: the system's hashed entry (when the obfuscator exists) followed by
 `host<c0+1>`, `host<c0+2>`, … `.example.com` without gaps -/
@@ -179,14 +162,6 @@ theorem mapping_exact (E : Env) (cfg : Cfg) (hE : HexDigest E) (h : List Call) :
 
 /-- where the ghost log comes from: one IPv4 stage logs exactly the addresses the recogniser returned on
 THAT line (longest first, `127.0.0.1` skipped) -/
-theorem ipStep_ignored (sl : St × Str) (ip : Str) (h : ipIgnore.contains ip = true) : ipStep sl ip = sl := by
-  unfold ipStep; rw [if_pos h]
-
-theorem ipStep_eq (sl : St × Str) (ip : Str) (h : ¬ ipIgnore.contains ip = true) :
-    ipStep sl ip = ({ sl.1 with ipDb := (ip2db sl.1.ipDb (ip2int ip)).1, foundIp := sl.1.foundIp ++ [ip2int ip] },
-      replace ip (int2ip (ip2db sl.1.ipDb (ip2int ip)).2) sl.2) := by
-  unfold ipStep; rw [if_neg h]
-
 theorem ipStage_found (E : Env) (st : St) (line : Str) :
     (ipStage E st line).1.foundIp =
       st.foundIp ++ ((sortByLenDesc (E.findIp line)).filter (fun ip => !ipIgnore.contains ip)).map ip2int := by
@@ -239,138 +214,6 @@ The full statement — every found original is shown as its database substitute 
 code: a replacement can hit text that an earlier replacement of the same line inserted.  The model of the
 real stage is compared with a provenance-respecting stage `ipStageT` in which substituted text is opaque. -/
 
-/-- a line with provenance: an original character, or an original that was replaced by a substitute -/
-inductive Seg
-  | ch (c : Char)
-  | sub (orig shown : Str)
-deriving DecidableEq, Repr
-
-def render : List Seg → Str
-  | [] => []
-  | .ch c :: r => c :: render r
-  | .sub _ s :: r => s ++ render r
-
-def source : List Seg → Str
-  | [] => []
-  | .ch c :: r => c :: source r
-  | .sub o _ :: r => o ++ source r
-
-/-- the original characters at the head of a segment list, up to the first substituted segment -/
-def origRun : List Seg → Str
-  | .ch c :: r => c :: origRun r
-  | _ => []
-
-/-- `replace k v` that only ever matches ORIGINAL text (never inside or across a substitute) -/
-def replT (k v : Str) : Nat → List Seg → List Seg
-  | _, [] => []
-  | skip + 1, _ :: r => replT k v skip r
-  | 0, .sub o s :: r => .sub o s :: replT k v 0 r
-  | 0, .ch c :: r =>
-    if !k.isEmpty && k.isPrefixOf (origRun (.ch c :: r)) then .sub k v :: replT k v (k.length - 1) r
-    else .ch c :: replT k v 0 r
-
-def ipStepT (sl : St × List Seg) (ip : Str) : St × List Seg :=
-  if ipIgnore.contains ip then sl
-  else
-    let r := ip2db sl.1.ipDb (ip2int ip)
-    ({ sl.1 with ipDb := r.1, foundIp := sl.1.foundIp ++ [ip2int ip] }, replT ip (int2ip r.2) 0 sl.2)
-
-/-- no replacement of this line touches text inserted by an earlier replacement of the line: at every
-step the real `str.replace` and the provenance-respecting one produce the same text -/
-def noCollision : St × List Seg → List Str → Bool
-  | _, [] => true
-  | sl, ip :: rest =>
-    ((ipStep (sl.1, render sl.2) ip).2 == render (ipStepT sl ip).2) && noCollision (ipStepT sl ip) rest
-
-theorem ipStepT_ignored (sl : St × List Seg) (ip : Str) (h : ipIgnore.contains ip = true) : ipStepT sl ip = sl := by
-  unfold ipStepT; rw [if_pos h]
-
-theorem ipStepT_eq (sl : St × List Seg) (ip : Str) (h : ¬ ipIgnore.contains ip = true) :
-    ipStepT sl ip = ({ sl.1 with ipDb := (ip2db sl.1.ipDb (ip2int ip)).1, foundIp := sl.1.foundIp ++ [ip2int ip] },
-      replT ip (int2ip (ip2db sl.1.ipDb (ip2int ip)).2) 0 sl.2) := by
-  unfold ipStepT; rw [if_neg h]
-
-theorem ipStepT_fst (sl : St × List Seg) (ip : Str) : (ipStepT sl ip).1 = (ipStep (sl.1, render sl.2) ip).1 := by
-  by_cases h : ipIgnore.contains ip = true
-  · rw [ipStepT_ignored _ _ h, ipStep_ignored _ _ h]
-  · rw [ipStepT_eq _ _ h, ipStep_eq _ _ h]
-
-theorem source_replT (k v : Str) : ∀ (segs : List Seg) (skip : Nat),
-    (skip = 0 → source (replT k v skip segs) = source segs) ∧
-    (∀ pre, skip > 0 → pre.length = skip → pre <+: origRun segs →
-      source (replT k v skip segs) = source (segs.drop skip)) := by
-  intro segs
-  induction segs with
-  | nil =>
-    intro skip
-    refine ⟨fun _ => by cases skip <;> simp [replT], ?_⟩
-    intro pre hs hl hp
-    simp [origRun] at hp; subst hp; simp at hl; omega
-  | cons x r ih =>
-    intro skip
-    constructor
-    · intro h0; subst h0
-      cases x with
-      | sub o s => simp [replT, source, (ih 0).1 rfl]
-      | ch c =>
-        simp only [replT]
-        split
-        · rename_i hm
-          simp only [Bool.and_eq_true, Bool.not_eq_true', List.isEmpty_eq_false_iff] at hm
-          obtain ⟨hne, hpre⟩ := hm
-          have hpre' : k <+: origRun (.ch c :: r) := List.isPrefixOf_iff_prefix.mp hpre
-          cases k with
-          | nil => exact absurd rfl hne
-          | cons k0 ks =>
-            simp only [origRun] at hpre'
-            have hh := List.cons_prefix_cons.mp hpre'
-            simp only [source, List.length_cons, Nat.add_sub_cancel]
-            cases hks : ks with
-            | nil =>
-              have := (ih 0).1 rfl
-              rw [hks] at this
-              simp only [List.length_nil]
-              rw [this, hh.1]; rfl
-            | cons k1 kt =>
-              rw [← hks]
-              have hpos : ks.length > 0 := by rw [hks]; simp
-              have := (ih ks.length).2 ks hpos rfl hh.2
-              rw [this, hh.1]
-              -- source of the dropped original run is `ks`
-              have key : ∀ (ks : Str) (r : List Seg), ks <+: origRun r → source r = ks ++ source (r.drop ks.length) := by
-                intro ks
-                induction ks with
-                | nil => intro r _; simp
-                | cons a as iha =>
-                  intro r hp
-                  cases r with
-                  | nil => simp [origRun] at hp
-                  | cons y ys =>
-                    cases y with
-                    | sub o s => simp [origRun] at hp
-                    | ch d =>
-                      simp only [origRun] at hp
-                      have h2 := List.cons_prefix_cons.mp hp
-                      simp [source, h2.1, iha ys h2.2]
-              rw [key ks r hh.2]; simp
-        · simp [source, (ih 0).1 rfl]
-    · intro pre hs hl hp
-      cases skip with
-      | zero => omega
-      | succ n =>
-        simp only [replT, List.drop_succ_cons]
-        cases x with
-        | sub o s => simp [origRun] at hp; subst hp; simp at hl
-        | ch c =>
-          cases pre with
-          | nil => simp at hl
-          | cons p ps =>
-            simp only [origRun] at hp
-            have h2 := List.cons_prefix_cons.mp hp
-            by_cases hn : n = 0
-            · subst hn; simp [(ih 0).1 rfl]
-            · exact (ih n).2 ps (by omega) (by simpa using hl) h2.2
-
 /-- the provenance-respecting stage never loses or alters original text: erasing the substitutions gives
 back the line that entered the stage -/
 theorem ipStageT_source (ips : List Str) (sl : St × List Seg) :
@@ -383,67 +226,6 @@ theorem ipStageT_source (ips : List Str) (sl : St × List Seg) :
     by_cases h : ipIgnore.contains ip = true
     · rw [ipStepT_ignored _ _ h]
     · rw [ipStepT_eq _ _ h]; exact (source_replT _ _ _ 0).1 rfl
-
-/-- every substituted segment carries an original that was handed to the database and the substitute the
-database holds for it -/
-def SubsOk (db : List (Nat × Nat)) (segs : List Seg) : Prop :=
-  ∀ o s, Seg.sub o s ∈ segs → ∃ k, (k, ip2int o) ∈ db ∧ s = int2ip k
-
-theorem mem_replT (k v : Str) (x : Seg) : ∀ (segs : List Seg) (skip : Nat),
-    x ∈ replT k v skip segs → x ∈ segs ∨ x = .sub k v := by
-  intro segs
-  induction segs with
-  | nil => intro skip h; cases skip <;> simp [replT] at h
-  | cons y r ih =>
-    intro skip h
-    cases skip with
-    | succ n =>
-      simp only [replT] at h
-      rcases ih n h with h1 | h1
-      · exact Or.inl (List.mem_cons_of_mem _ h1)
-      · exact Or.inr h1
-    | zero =>
-      cases y with
-      | sub o s =>
-        simp only [replT, List.mem_cons] at h
-        rcases h with h1 | h1
-        · exact Or.inl (by rw [h1]; simp)
-        · rcases ih 0 h1 with h2 | h2
-          · exact Or.inl (List.mem_cons_of_mem _ h2)
-          · exact Or.inr h2
-      | ch c =>
-        simp only [replT] at h
-        split at h
-        · simp only [List.mem_cons] at h
-          rcases h with h1 | h1
-          · exact Or.inr h1
-          · rcases ih _ h1 with h2 | h2
-            · exact Or.inl (List.mem_cons_of_mem _ h2)
-            · exact Or.inr h2
-        · simp only [List.mem_cons] at h
-          rcases h with h1 | h1
-          · exact Or.inl (by rw [h1]; simp)
-          · rcases ih 0 h1 with h2 | h2
-            · exact Or.inl (List.mem_cons_of_mem _ h2)
-            · exact Or.inr h2
-
-theorem ipStepT_subsOk (E : Env) (cfg : Cfg) (sl : St × List Seg) (ip : Str) (hi : Inv E cfg sl.1)
-    (hs : SubsOk sl.1.ipDb sl.2) : SubsOk (ipStepT sl ip).1.ipDb (ipStepT sl ip).2 := by
-  by_cases hc : ipIgnore.contains ip = true
-  · rw [ipStepT_ignored _ _ hc]; exact hs
-  · have ext := (ipStep_pres E cfg (sl.1, render sl.2) ip hi).2
-    rw [ipStep_eq _ _ hc] at ext
-    rw [ipStepT_eq _ _ hc]
-    intro o s hm
-    rcases mem_replT _ _ _ _ _ hm with h1 | h1
-    · obtain ⟨k, hk, e⟩ := hs o s h1
-      exact ⟨k, ext.ip.subset hk, e⟩
-    · cases h1
-      refine ⟨(ip2db sl.1.ipDb (ip2int ip)).2, ?_, rfl⟩
-      show ((ip2db sl.1.ipDb (ip2int ip)).2, ip2int ip) ∈ (ip2db sl.1.ipDb (ip2int ip)).1
-      cases hl : lastKeyOf sl.1.ipDb (ip2int ip) with
-      | some k => simp only [ip2db, hl]; exact lastKeyOf_some_mem _ _ _ hl
-      | none => rw [ip2db_new _ _ hi.ipKeys hl]; simp
 
 /-- **text_consistent_partial** (IPv4 stage, any line, any state reachable in a history).  If no replacement
 of the line touches text that an earlier replacement of the same line inserted (`noCollision`), then the
